@@ -202,4 +202,12 @@ def crossVerdict (cfgs : List Cfg) (o : Obs × Served) : String :=
         | _ => "ok"
   | _ => "ok"
 
+/-- a listener built from a Casketfile (stream `c06.loaded`): `cfgs` are the settings the sites' addresses and
+tls blocks MEAN (host pattern in lower case, …) — however they are written.  Both clauses of the property on one
+connection: the handshake under `sni` is governed by the most specific site's own settings (or the set is
+rejected, exactly as for `verdict`), and the request for `r.host` over it obeys the strict-SNI clause. -/
+def loadedVerdict (aesni : Bool) (cfgs : List Cfg) (sni : Bytes) (r : Casket.VHost.Req) (o : Obs × Served) : String :=
+  let v := verdict aesni cfgs sni none o.1
+  if v != "ok" then v else crossSHVerdict cfgs sni r o
+
 end Casket.TLSSpec
